@@ -125,9 +125,9 @@ Theorem only_commit_publishes : forall valid rules st o,
   exists i t b, o = OCommit i /\ nth_error (st_txs st) i = Some t /\ tx_commit valid t (st_bag st) = Some b /\
                 st_bag (fst (step valid rules st o)) = b.
 Proof.
-  intros valid rules st o. destruct o as [| i req v | i req | i req | i]; cbn [step].
+  intros valid rules st o. destruct o as [| i req v | i req | i req | i | req v]; cbn [step]; [| | | | |now left].
   - now left.
-  - left. destruct (nth_error (st_txs st) i); [|reflexivity]. destruct (set_writes rules req v) as [[] ws]; reflexivity.
+  - left. destruct (nth_error (st_txs st) i); [|reflexivity]. destruct (set_writes_g rules req v) as [[] ws]; reflexivity.
   - left. destruct (nth_error (st_txs st) i); [|reflexivity]. destruct (unset_paths rules req) as [[] ps]; reflexivity.
   - left. now destruct (nth_error (st_txs st) i).
   - destruct (nth_error (st_txs st) i) as [t|] eqn:N; [|now left].
@@ -372,4 +372,284 @@ Proof.
     unfold tx_get, add_deltas. cbn [tx_pristine tx_deltas]. rewrite apply_deltas_app, AD. cbn [apply_deltas].
     rewrite (apply_set b (p, v)) by (split; assumption). cbn [fst snd].
     rewrite bag_get_node by exact NP. rewrite bag_set_obj by exact NP. rewrite bnode_tset_same. reflexivity.
+Qed.
+
+(* ------------------------------------------------------------------ bare databag: partial writes *)
+Definition bb_rules : list rule := [mkRule [Lit 97; Lit 98] [Lit 112] RW; mkRule [Lit 97; Lit 99] [Lit 113] RW].
+Definition bb_value : tree := Obj [(98, Atom 1%Z); (99, Atom 99%Z)].
+
+(* rules a.b -> p, a.c -> q; on an empty bare databag, Set a = {b:1, c:99} with a schema that rejects 99: the write
+   of p passes, the write of q fails the schema, the request is rejected and p = 1 stays behind *)
+Lemma bare_bag_partial : bare_set drv_valid bb_rules [] [97] bb_value = (RError, [(112, Atom 1%Z); (113, Atom 99%Z)]).
+Proof. reflexivity. Qed.
+
+(* ... while the same request at the transactional entry point changes nothing *)
+Lemma bare_bag_vs_tx : set_via_view drv_valid bb_rules [] [97] bb_value = ([], false).
+Proof. reflexivity. Qed.
+
+(* ------------------------------------------------------------------ general write / read paths (placeholders) *)
+(* p is an instance of the part list sp: literals agree, a placeholder stands for any key *)
+Fixpoint inst (sp : list part) (p : path) : Prop :=
+  match sp, p with
+  | [], [] => True
+  | Lit k :: sp', k' :: p' => k = k' /\ inst sp' p'
+  | Ph _ :: sp', _ :: p' => inst sp' p'
+  | _, _ => False
+  end.
+
+Lemma inst_lits : forall sp p, lits sp = Some p -> inst sp p.
+Proof.
+  induction sp as [|[k|n] sp IH]; intros p H; cbn in H.
+  - now injection H as <-.
+  - destruct (lits sp) as [p0|]; [|discriminate]. injection H as <-. cbn. split; auto.
+  - discriminate.
+Qed.
+
+Lemma inst_replace : forall sp n c p, inst (replace_in sp n c) p -> inst sp p.
+Proof.
+  induction sp as [|[k|m] sp IH]; intros n c [|k' p] H; cbn in *; auto; try contradiction.
+  - destruct H as [E H]. split; eauto.
+  - now destruct (m =? n).
+  - destruct (m =? n); cbn in H; [destruct H as [_ H]|]; eauto.
+Qed.
+
+Lemma expand_inst : forall sf sp v e sp' x p, expand sf sp v = Some e -> In (sp', x) e -> inst sp' p -> inst sp p.
+Proof.
+  induction sf as [|[k|n] r IH]; intros sp v e sp' x p H I N; cbn [expand] in H.
+  - injection H as <-. destruct I as [I|I]; [|destruct I]. injection I as <- _. exact N.
+  - destruct v as [| z | l]; try discriminate. destruct (lookup k l) as [c|]; [|discriminate]. eauto.
+  - destruct v as [| z | l]; try discriminate.
+    assert (G : forall l acc e, fold_left (fun acc kc => match acc, expand r (replace_in sp n (fst kc)) (snd kc) with
+                                                         | Some a, Some e => Some (a ++ e) | _, _ => None end) l acc = Some e ->
+              In (sp', x) e -> exists a, acc = Some a /\ (In (sp', x) a \/ inst sp p)).
+    { clear H I e l. induction l as [|kc l IHl]; intros acc e H I; cbn [fold_left] in H.
+      - subst acc. eauto.
+      - destruct (IHl _ _ H I) as (a & E & D). destruct acc as [a0|]; [|discriminate].
+        destruct (expand r (replace_in sp n (fst kc)) (snd kc)) as [e0|] eqn:X; [|discriminate].
+        injection E as <-. exists a0. split; [reflexivity|]. destruct D as [D|D]; [|now right].
+        apply in_app_or in D. destruct D as [D|D]; [now left|right].
+        eapply inst_replace. eapply IH; eauto. }
+    destruct (G _ _ _ H I) as (a & E & D). injection E as <-. destruct D as [[]|D]; exact D.
+Qed.
+
+Definition allowed_g (allow : rule -> bool) (rules : list rule) (req p : path) : Prop :=
+  exists r sp sf, In r rules /\ allow r = true /\ match_rule req r = Some (sp, sf) /\ inst sp p.
+
+Lemma allowed_allowed_g : forall allow rules req p, allowed allow rules req p -> allowed_g allow rules req p.
+Proof. intros allow rules req p (r & sp & sf & I & A & M & L). exists r, sp, sf. auto using inst_lits. Qed.
+
+Lemma lits_all_in : forall ews ws p x, lits_all ews = Some ws -> In (p, x) ws -> exists sp, In (sp, x) ews /\ lits sp = Some p.
+Proof.
+  induction ews as [|[sp y] r IH]; intros ws p x H I; cbn in H.
+  - injection H as <-. destruct I.
+  - destruct (lits sp) as [p0|] eqn:L; [|discriminate]. destruct (lits_all r) as [l|]; [|discriminate]. injection H as <-.
+    destruct I as [I|I].
+    + injection I as <- <-. exists sp. split; [now left|exact L].
+    + destruct (IH _ _ _ eq_refl I) as (sp' & I' & L'). exists sp'. split; [now right|exact L'].
+Qed.
+
+(* the writes of the general Set (placeholders of the unmatched suffix filled from the value, order-dependent suffixes
+   included): every written path is an instance of the filled storage path of a matching writeable rule *)
+Lemma set_class_allowed : forall rules req v ws p x,
+  (exists r, set_class rules req v = SDet r ws) \/ (exists m, set_class rules req v = SEither m ws) ->
+  In (p, x) ws -> allowed_g writeable rules req p.
+Proof.
+  intros rules req v ws p x H I. unfold set_class in H.
+  destruct (matches writeable rules req) as [|m0 ms] eqn:EM.
+  { destruct H as [[r H]|[m H]]; [|discriminate]. injection H as _ <-. destruct I. }
+  rewrite <- EM in H.
+  set (sorted := sort_by (fun m : rmatch => parts_key (fst m)) (matches writeable rules req)) in *.
+  match type of H with context [match ?f with Some _ => _ | None => _ end] => destruct f as [ews|] eqn:EF end.
+  2:{ destruct H as [[r H]|[m H]]; [|discriminate]. injection H as _ <-. destruct I. }
+  match type of H with context [if ?c then _ else _] => destruct c end.
+  { destruct H as [[r H]|[m H]]; [|discriminate]. injection H as _ <-. destruct I. }
+  destruct (lits_all ews) as [ws0|] eqn:EL.
+  2:{ destruct H as [[r H]|[m H]]; [|discriminate]. injection H as _ <-. destruct I. }
+  assert (W : ws = ws0 \/ ws = []).
+  { destruct (order_dependent (dedup_parts (map snd (matches writeable rules req)))).
+    - destruct H as [[r H]|[m H]]; [discriminate|]. injection H as _ <-. now left.
+    - destruct H as [[r H]|[m H]]; [|destruct (prune_all false v _) as [[?|]|]; discriminate].
+      destruct (prune_all false v _) as [[?|]|]; injection H as _ <-; auto. }
+  destruct W as [->| ->]; [|destruct I].
+  destruct (lits_all_in _ _ _ _ EL I) as (sp' & I' & L').
+  assert (G : forall l acc e, fold_left (fun acc (m : rmatch) => match acc, expand (snd m) (fst m) v with
+                                                       | Some a, Some e => Some (a ++ e) | _, _ => None end) l acc = Some e ->
+            In (sp', x) e -> exists a, acc = Some a /\ (In (sp', x) a \/ exists m e0, In m l /\ expand (snd m) (fst m) v = Some e0 /\ In (sp', x) e0)).
+  { induction l as [|m l IHl]; intros acc e Hf Ie; cbn [fold_left] in Hf.
+    - subst acc. eauto.
+    - destruct (IHl _ _ Hf Ie) as (a & E & D). destruct acc as [a0|]; [|discriminate].
+      destruct (expand (snd m) (fst m) v) as [e0|] eqn:X; [|discriminate]. injection E as <-.
+      exists a0. split; [reflexivity|]. destruct D as [D|(m' & e' & Im & Xm & Ie')].
+      + apply in_app_or in D. destruct D as [D|D]; [now left|right]. exists m, e0. repeat split; auto. now left.
+      + right. exists m', e'. repeat split; auto. now right. }
+  destruct (G _ _ _ EF I') as (a & E & D). injection E as <-. destruct D as [[]|(m & e0 & Im & Xm & Ie)].
+  apply in_sort_by in Im. destruct m as [sp sf]. destruct (matches_in _ _ _ _ Im) as (r & Ir & A & M).
+  exists r, sp, sf. repeat split; auto. eapply expand_inst; eauto. now apply inst_lits.
+Qed.
+
+Theorem write_paths_allowed_g : forall rules req v ws p x, set_writes_g rules req v = (ROk, ws) -> In (p, x) ws ->
+  allowed_g writeable rules req p.
+Proof.
+  intros rules req v ws p x H I. unfold set_writes_g in H.
+  assert (G : (match set_class rules req v with SDet r ws => (r, ws) | SEither _ _ => (RUnsupported, []) end) = (ROk, ws) ->
+              allowed_g writeable rules req p).
+  { destruct (set_class rules req v) as [r ws'|m ws'] eqn:E; [|discriminate]. intros [= -> ->].
+    eapply set_class_allowed; [left; eauto|exact I]. }
+  destruct (literal_matches (matches writeable rules req)) as [lms|]; [|now apply G].
+  destruct (overlapping (map snd lms)); [now apply G|].
+  apply allowed_allowed_g. eapply write_paths_allowed; eauto.
+Qed.
+
+(* View.Get in general depends on the databag only through the (possibly placeholder-carrying) filled storage paths
+   of matching readable rules *)
+Definition allowed_parts (rules : list rule) (req : path) (sp : list part) : Prop :=
+  exists r sf, In r rules /\ readable r = true /\ match_rule req r = Some (sp, sf).
+
+Theorem read_paths_allowed_ph : forall rules req (g1 g2 : list part -> bres),
+  (forall sp, allowed_parts rules req sp -> g1 sp = g2 sp) -> view_get_ph rules g1 req = view_get_ph rules g2 req.
+Proof.
+  intros rules req g1 g2 H. unfold view_get_ph.
+  destruct (matches readable rules req) as [|m ms] eqn:EM; [reflexivity|]. rewrite <- EM.
+  set (sorted := sort_by (fun m : rmatch => parts_key (snd m)) (matches readable rules req)).
+  assert (A : forall m0, In m0 sorted -> g1 (fst m0) = g2 (fst m0)).
+  { intros [sp sf] I. apply in_sort_by in I. apply H. destruct (matches_in _ _ _ _ I) as (r & Ir & Ar & M).
+    now exists r, sf. }
+  match goal with |- match fold_left ?f1 ?l ?a with _ => _ end = match fold_left ?f2 ?l ?a with _ => _ end =>
+    assert (F : fold_left f1 l a = fold_left f2 l a) end.
+  { generalize (Some (@None tree)) as acc. revert A. generalize sorted as l.
+    induction l as [|m0 r IH]; intros A acc; [reflexivity|]. cbn [fold_left].
+    rewrite (A m0 (or_introl eq_refl)). apply IH. intros m1 I. apply A. now right. }
+  now rewrite F.
+Qed.
+
+(* ------------------------------------------------------------------ read-after-write through the view, rule by rule *)
+(* after an accepted Set of v at req, the request g of any ONE written rule (g is matched by exactly that readable rule,
+   in full; its storage path p is not touched by a later write of the same Set) reads back the part of v that was written
+   through that rule - whatever other rules, nested storage paths included, the Set also wrote *)
+Theorem view_read_after_write_rule : forall rules req v ws ws1 p x ws2 g sp t b,
+  set_writes rules req v = (ROk, ws) -> Forall is_set ws -> ws = ws1 ++ (p, x) :: ws2 ->
+  (forall d', In d' ws2 -> is_prefix p (fst d') = false) ->
+  matches readable rules g = [(sp, [])] -> lits sp = Some p ->
+  apply_deltas (tx_pristine t) (tx_deltas t) = Some b ->
+  view_get rules (tx_get (add_deltas t ws)) g = VOk (strip x).
+Proof.
+  intros rules req v ws ws1 p x ws2 g sp t b H F E NP MR L AD.
+  destruct (storage_read_after_write rules req v ws b H F) as (b' & A & R).
+  specialize (R ws1 (p, x) ws2 E NP). cbn [fst snd] in R.
+  unfold view_get. rewrite MR. cbn. rewrite L. cbn.
+  unfold tx_get, add_deltas. cbn [tx_pristine tx_deltas]. rewrite apply_deltas_app, AD, A, R. reflexivity.
+Qed.
+
+(* what the OUTER rule returns when an inner rule wrote below it: its own value with the inner value set inside *)
+Lemma bnode_tset_below : forall p q w o t, bnode p o = BOk t -> bnode p (Some (tset (p ++ q) w o)) = BOk (tset q w (Some t)).
+Proof.
+  induction p as [|k r IH]; intros q w o t H.
+  - destruct o as [t0|]; cbn in H; [|discriminate]. now injection H as <-.
+  - destruct o as [[| z | l]|]; cbn in H; try discriminate; try (rewrite bnode_none in H; discriminate).
+    cbn [app]. rewrite tset_cons'. cbn [bnode]. rewrite lookup_aset_eq. now apply IH.
+Qed.
+
+Theorem outer_returns_inner : forall b p q x1 x2, p <> [] -> q <> [] -> x1 <> Null -> x2 <> Null ->
+  exists b', apply_deltas b [(p, x1); (p ++ q, x2)] = Some b' /\
+             bag_get p b' = BOk (tset q (strip x2) (Some (strip x1))) /\
+             bag_get (p ++ q) b' = BOk (strip x2).
+Proof.
+  intros b p q x1 x2 NP NQ N1 N2.
+  assert (NPQ : p ++ q <> []) by (destruct p; [congruence|discriminate]).
+  cbn [apply_deltas]. rewrite (apply_set b (p, x1)) by (split; assumption). cbn [fst snd].
+  rewrite (apply_set _ (p ++ q, x2)) by (split; assumption). cbn [fst snd].
+  eexists. split; [reflexivity|]. split.
+  - rewrite bag_get_node by exact NP. rewrite bag_set_obj by exact NPQ. apply bnode_tset_below.
+    rewrite bag_set_obj by exact NP. apply bnode_tset_same.
+  - rewrite bag_get_node by exact NPQ. rewrite bag_set_obj by exact NPQ. apply bnode_tset_same.
+Qed.
+
+(* ------------------------------------------------------------------ commit order with Unset deltas as well *)
+Lemma bag_unset_unfold : forall k k2 r2 l, bag_unset (k :: k2 :: r2) l =
+  match lookup k l with
+  | None | Some Null => Some l
+  | Some (Obj l') => match bag_unset (k2 :: r2) l' with Some x => Some (aset k (Obj x) l) | None => None end
+  | Some (Atom _) => None
+  end.
+Proof. reflexivity. Qed.
+
+Lemma bag_unset_keeps : forall p q l l' t, bag_unset p l = Some l' -> diverge q p = true ->
+  bag_get q l = BOk t -> bag_get q l' = BOk t.
+Proof.
+  induction p as [|k r IH]; intros q l l' t H D G.
+  - unfold diverge in D. cbn in D. now rewrite andb_false_r in D.
+  - destruct q as [|k' q']; [discriminate|]. rewrite diverge_cons in D.
+    destruct r as [|k2 r2].
+    + cbn in H. injection H as <-. destruct (k' =? k) eqn:E.
+      * unfold diverge in D. cbn in D. now rewrite andb_false_r in D.
+      * cbn [bag_get] in *. rewrite lookup_aremove, E. exact G.
+    + rewrite bag_unset_unfold in H. destruct (lookup k l) as [[| z | lk]|] eqn:EL; try (injection H as <-; exact G); try discriminate.
+      destruct (bag_unset (k2 :: r2) lk) as [x|] eqn:U; [|discriminate]. injection H as <-.
+      cbn [bag_get] in *. rewrite lookup_aset. destruct (k' =? k) eqn:E; [|exact G].
+      assert (k' = k) by lia; subst k'. rewrite EL in G.
+      destruct q' as [|k3 q3]; [discriminate|]. eapply IH; eauto.
+Qed.
+
+Definition has_path (d : delta) : Prop := fst d <> [].
+
+Lemma apply_delta_keeps : forall b d b' q t, has_path d -> apply_delta b d = Some b' -> q <> [] ->
+  diverge q (fst d) = true -> bag_get q b = BOk t -> bag_get q b' = BOk t.
+Proof.
+  intros b [p x] b' q t HP H NQ D G. cbn in *. unfold apply_delta in H. cbn [fst snd] in H.
+  assert (S : forall y, y <> Null -> Some (bag_set p y b) = Some b' -> bag_get q b' = BOk t).
+  { intros y NY [= <-]. rewrite bag_get_node by exact NQ. rewrite bag_set_obj by exact HP.
+    apply bnode_tset_diverge; [exact D|]. now rewrite <- bag_get_node. }
+  destruct x as [| z | l].
+  - eapply bag_unset_keeps; eauto.
+  - destruct p; [congruence|]. apply (S (Atom z)); [discriminate|exact H].
+  - destruct p; [congruence|]. apply (S (Obj l)); [discriminate|exact H].
+Qed.
+
+Lemma apply_deltas_keep : forall ds b b' q t, Forall has_path ds -> apply_deltas b ds = Some b' -> q <> [] ->
+  (forall d, In d ds -> diverge q (fst d) = true) -> bag_get q b = BOk t -> bag_get q b' = BOk t.
+Proof.
+  induction ds as [|d r IH]; intros b b' q t F H NQ D G; cbn in H.
+  - now injection H as <-.
+  - inversion F; subst. destruct (apply_delta b d) as [b0|] eqn:E; [|discriminate].
+    apply (IH b0 b' q t H3 H NQ); [intros d0 I0; apply D; now right|].
+    apply (apply_delta_keeps b d b0 q t H2 E NQ); [apply D; now left|exact G].
+Qed.
+
+Lemma apply_deltas_win : forall ds1 d ds2 b b', Forall has_path (ds1 ++ d :: ds2) -> snd d <> Null ->
+  apply_deltas b (ds1 ++ d :: ds2) = Some b' ->
+  (forall d', In d' ds2 -> diverge (fst d) (fst d') = true) ->
+  bag_get (fst d) b' = BOk (strip (snd d)).
+Proof.
+  intros ds1 d ds2 b b' F NV H D. rewrite apply_deltas_app in H.
+  destruct (apply_deltas b ds1) as [b0|]; [|discriminate]. cbn [apply_deltas] in H.
+  apply Forall_app in F. destruct F as [_ F]. inversion F as [|? ? HP F2]; subst.
+  rewrite (apply_set b0 d) in H by (split; assumption).
+  eapply apply_deltas_keep; eauto.
+  rewrite bag_get_node by exact HP. rewrite bag_set_obj by exact HP. apply bnode_tset_same.
+Qed.
+
+(* two transactions with any mix of Set and Unset deltas: after both committed (either order: swap the names) every
+   value written by a Set whose path diverges from all later deltas of its own transaction and (for the first one)
+   from all deltas of the second reads back as written *)
+Theorem commit_order_no_lost_update_g : forall valid t1 t2 b b1 b2,
+  Forall has_path (tx_deltas t1) -> Forall has_path (tx_deltas t2) ->
+  tx_commit valid t1 b = Some b1 -> tx_commit valid t2 b1 = Some b2 ->
+  (forall ds1 d ds2, tx_deltas t1 = ds1 ++ d :: ds2 -> snd d <> Null ->
+     (forall d', In d' ds2 -> diverge (fst d) (fst d') = true) ->
+     (forall d', In d' (tx_deltas t2) -> diverge (fst d) (fst d') = true) ->
+     bag_get (fst d) b2 = BOk (strip (snd d))) /\
+  (forall ds1 d ds2, tx_deltas t2 = ds1 ++ d :: ds2 -> snd d <> Null ->
+     (forall d', In d' ds2 -> diverge (fst d) (fst d') = true) ->
+     bag_get (fst d) b2 = BOk (strip (snd d))).
+Proof.
+  intros valid t1 t2 b b1 b2 F1 F2 C1 C2. unfold tx_commit in C1, C2.
+  destruct (apply_deltas b (tx_deltas t1)) as [x1|] eqn:E1; [|discriminate].
+  destruct (valid (Obj x1)); [|discriminate]. injection C1 as <-.
+  destruct (apply_deltas x1 (tx_deltas t2)) as [x2|] eqn:E2; [|discriminate].
+  destruct (valid (Obj x2)); [|discriminate]. injection C2 as <-. split.
+  - intros ds1 d ds2 E NV D1 D2. rewrite E in E1, F1.
+    pose proof (apply_deltas_win _ _ _ _ _ F1 NV E1 D1) as W.
+    eapply apply_deltas_keep; eauto.
+    apply Forall_app in F1. destruct F1 as [_ F1]. now inversion F1.
+  - intros ds1 d ds2 E NV D. rewrite E in E2, F2. eapply apply_deltas_win; eauto.
 Qed.
